@@ -7,6 +7,7 @@ CONSTANTS
   WithEmpty = TRUE
   Levels = {"cold"}
   MaxStep = 0
+  Plain = TRUE
   OnlyLayouts = TRUE
   FullProduct = FALSE
 INVARIANTS FormatLossless PrintLayout
